@@ -607,7 +607,9 @@ func (g *vtC07G) allocList() []int64 {
 	if r.Intn(10) == 0 {
 		n = 0
 	}
-	out := []int64{int64(n)}
+	var recs [][]int64
+	seen := map[[2]int64]bool{}
+	allowDup := r.Intn(12) == 0 // an annotation naming a device twice is malformed: rare
 	for i := 0; i < n; i++ {
 		var t, minor int64
 		if len(g.inv) > 0 && r.Intn(6) != 0 {
@@ -616,6 +618,10 @@ func (g *vtC07G) allocList() []int64 {
 		} else {
 			t, minor = int64(r.Intn(3)), int64(r.Intn(5))
 		}
+		if seen[[2]int64{t, minor}] && !allowDup {
+			continue
+		}
+		seen[[2]int64{t, minor}] = true
 		amt := g.pick(10, 25, 50, 50, 100, 100, 0, 130)
 		vs := []int64{amt, -1, -1}
 		if t == 0 {
@@ -631,7 +637,11 @@ func (g *vtC07G) allocList() []int64 {
 				}
 			}
 		}
-		out = append(out, t, minor, vs[0], vs[1], vs[2])
+		recs = append(recs, []int64{t, minor, vs[0], vs[1], vs[2]})
+	}
+	out := []int64{int64(len(recs))}
+	for _, rec := range recs {
+		out = append(out, rec...)
 	}
 	return out
 }
@@ -640,7 +650,7 @@ func vtC07Gen(r *rand.Rand, i int) (string, []int64) {
 	g := &vtC07G{r: r}
 	g.style = []string{"plain", "plain", "plain", "churn", "churn", "degenerate"}[r.Intn(6)]
 	g.topo = r.Intn(5) < 2
-	nops := 3 + r.Intn(12)
+	nops := 3 + r.Intn(16)
 	var ops [][]int64
 	ops = append(ops, g.refreshOp())
 	for len(ops) < nops {
